@@ -25,6 +25,9 @@ structure Defects where
   cursorForwardOnly : Bool := false
   /-- `Pager::open` builds its cache with `DEFAULT_CACHE_SIZE` instead of the size stored in page zero. -/
   openIgnoresCacheSize : Bool := false
+  /-- the cache size is narrowed into the header with `as u16` (io/pager.rs:132, storage/page.rs:133): 65536 is
+      recorded as 0. Intended: saturate at 65535. -/
+  cacheSizeWraps : Bool := false
 deriving Repr, DecidableEq
 
 def Defects.none : Defects := {}
@@ -301,8 +304,8 @@ deriving Repr
 
 def Pager.init (capacity : Nat) : Pager := { mem := Mem.init capacity, cfgCache := capacity }
 
-/-- value of the cache size that `DBConfig.cache_size as u16` leaves in page zero -/
-def headerCacheSize (n : Nat) : Nat := n % 65536
+/-- the cache size as recorded in the u16 field of page zero -/
+def headerCacheSize (D : Defects) (n : Nat) : Nat := if D.cacheSizeWraps then n % 65536 else min n 65535
 
 def defaultCacheSize : Nat := 10000
 
@@ -422,7 +425,7 @@ def Pager.step (D : Defects) (s : Pager) : POp → Pager × Out
   | .reopen =>
     -- checkpoint, drop the pager, `Pager::open`
     let s := s.flush D
-    let cap := if D.openIgnoresCacheSize then defaultCacheSize else headerCacheSize s.cfgCache
+    let cap := if D.openIgnoresCacheSize then defaultCacheSize else headerCacheSize D s.cfgCache
     ({ s with mem := { s.mem with cache := Cache.empty cap } }, .ok)
   | .disk p =>
     if s.lost.contains p then (s, .lost) else
